@@ -26,7 +26,9 @@ HARNESS = os.path.join(ROOT, "harness")
 WORK = os.path.join(ROOT, ".work")
 REGRESS = os.path.join(ROOT, "regress")
 REPLAYS = os.path.join(ROOT, "replays")
-EVIDENCE = os.path.join(ROOT, "evidence")
+# development tools (mutant / seeded-change runs) redirect evidence so that the committed files only ever
+# come from runs on the unchanged tree
+EVIDENCE = os.environ.get("VERIF_EVIDENCE_DIR") or os.path.join(ROOT, "evidence")
 KNOWN = os.path.join(ROOT, "known_findings.jsonl")
 NCPU = os.cpu_count() or 4
 
@@ -101,6 +103,8 @@ def run_replays(binary, pid, files=None, dir_=None, timeout=600):
     """Returns list of (file, status, msg); status in PASS/FAIL/ERROR/DIED."""
     env = goenv()
     cfg = CHECKS.get(pid, {})
+    if cfg.get("ulimit_v_kb"):
+        env.setdefault("GOMEMLIMIT", "400MiB")
     env["VERIF_PROP"] = pid
     env["VERIF_OUT"] = ""
     if dir_:
@@ -200,6 +204,10 @@ def run_shard(binary, pid, cfg, tier, seed, shard, nshards, outdir, replays, tim
         "VERIF_OUT": outdir, "VERIF_REPLAYS": replays, "VERIF_PROP": pid,
     })
     env.update(cfg.get("env", {}))
+    if cfg.get("ulimit_v_kb"):
+        # keep the Go heap small so that the address-space limit is never reached by garbage that the
+        # collector has not got round to yet (observed once on a loaded machine: fatal out of memory, exit 2)
+        env.setdefault("GOMEMLIMIT", "400MiB")
     logf = open(os.path.join(outdir, "log-s%d.txt" % shard), "w")
     cmd = [binary, "-test.run", cfg["run"], "-test.timeout", "%ds" % timeout, "-test.v"]
     cmd = with_ulimit(cmd, cfg, binary)
